@@ -127,6 +127,8 @@ class V:
             # the inner line of a substitution plans a command without words: the own class, reached through run_pipeline
             if self.hit("empty-command-substitution", "e.g. %r -> PANIC (%s)" % (line, layer)):
                 return
+        if mode == "PANIC" and "the len is 0 but the index is 0" in observed:
+            cls = [c for c in cls if c not in ("range", "arith")]    # an index panic is not an integer overflow
         for c in sorted(cls, key=lambda c: ["brace-open", "nl-dollar", "selfref", "arith", "range", "subst", "herestring"].index(c)):
             if mode in FOREIGN_MODE[c] and self.hit(FOREIGN_NAME[c], "e.g. %r -> %s (%s)" % (line, mode, layer)):
                 return
@@ -410,8 +412,13 @@ def layer2(ctx, res, vv, work):
                        failing_input=False, note="drive/c05.py known_foreign is not the mirror of Model/C05Classes.v")
     # model prediction for the own class, from the implementation's in-process tokens
     pl = C.write_cases("c05_l2_line.txt", [C.case("line", s) for s in lines])
-    io = C.run_impl(impl, pl, len(lines), env={"HX_CASE_TIMEOUT_MS": "3000"})
+    # same surroundings as the real runs below: an empty current directory (globs), HOME = cwd
+    cwd_pred = os.path.join(work, "cwd_l2_pred")
+    os.makedirs(cwd_pred)
+    os.chdir(cwd_pred)
+    io = C.run_impl(impl, pl, len(lines), env={"HX_CASE_TIMEOUT_MS": "3000", "HOME": cwd_pred, "PATH": "/usr/bin:/bin"})
     io = confirm_abnormal(impl, lines, io, "line", "l2")
+    os.chdir(work)
     with ThreadPoolExecutor(max_workers=C.NCPU) as ex:
         outs = list(ex.map(lambda a: run_l2_one(ctx, work, a[0], a[1]), enumerate(lines)))
     stats = {}
